@@ -48,6 +48,13 @@ class RuleSet:
             if use_scopes and pre and rng.random() < 0.3:
                 while j < n and self._scprefix(self.rules[j]) == pre and rng.random() < 0.7:
                     j += 1
+                while j > i + 1 and self.rules[j - 1].get('chain'):
+                    j -= 1          # a scope cannot end in a '|' action (flex: "unrecognized rule")
+                if self.rules[j - 1].get('chain'):
+                    lines2.append(self._rule_line(pr, r, pre, action(i + 1)))
+                    self._rule_pos[len(lines2) - 1] = i + 1
+                    i = i + 1
+                    continue
                 lines2.append(pre + '{')
                 for k in range(i, j):
                     lines2.append(self._rule_line(pr, self.rules[k], '', action(k + 1)))
